@@ -60,6 +60,8 @@ def one(spec, batch, stats, cap, prop):
         g = extract_grammar(b.considered, b.start)
         decl = b.oracle()
         mind = int(g.get_min_tree_depth())
+        if mind > 12:
+            return          # an absurd reported minimum (e.g. "unreachable") is C05's business; nothing to enumerate here
         evs = []
         for decider in ("grow", "pigrow", "full"):
             for d in range(max(mind, 1), mind + 4):
@@ -107,6 +109,8 @@ def one_redeclared(spec, batch, stats, cap):
         g = extract_grammar(b.considered, b.start)
         decl = b.oracle()     # read again: the declaration as it now stands
         mind = int(g.get_min_tree_depth())
+        if mind > 12:
+            return
         evs = []
         for d in range(max(mind, 1), mind + 2):
             r = enumerate_set(g, "grow", d, cap)
@@ -132,6 +136,8 @@ def one_c10(spec, batch, stats, cap):
         g = extract_grammar(b.considered, b.start)
         decl = b.oracle()
         mind = int(g.get_min_tree_depth())
+        if mind > 12:
+            return
         d = mind + 1
         r = enumerate_set(g, "grow", d, cap)
         if not r[2]:
